@@ -60,6 +60,14 @@ def work(ctx, tier):
         if k % 5 == 0:
             # an interrupt (KeyboardInterrupt / SystemExit / CancelledError) arriving inside an observability hook
             sc["fault"] = {"kind": "hook", "hook": rng.choice(["metric", "log"]), "at": rng.randint(0, 6), "exc": rng.choice(["kbd", "sysexit", "cancel"])}
+            if k % 2 == 0:
+                # ... inside the hook that receives the `circuit_rejected` event of a call the breaker turns away (open, or half-open with
+                # another caller's probe in flight)
+                br = sc["cfg"]["breaker"]
+                br["trip_on"] = ["TRANSIENT"]
+                br["class_thresholds"] = {}
+                br["pre"] = [["fail", "TRANSIENT"]] * br["threshold"] + rng.choice([[], [["adv", br["recovery"] + gen.G], ["allow"]]])
+                sc["fault"]["at"] = 0
         sc["poll"] = True
         if k % 4 == 0:
             sc["cfg"]["breaker"]["falsy"] = True
@@ -69,6 +77,12 @@ def work(ctx, tier):
             ctx.inc("calls", len(recs))
             for rec in recs:
                 spy = [x for x in rec.trace if x[0].startswith("br.")]
+                if rec.fault_fired and spy and spy[0][0] == "br.allow" and not spy[0][1]:
+                    # a call the breaker REJECTED has nothing to report, whatever happens to its hooks
+                    ctx.cnt["rejected_calls_with_a_failing_hook"] += 1
+                    if len(spy) > 1:
+                        ctx.viol("rejected-call-reported", f"[{e} call#{rec.idx}] the call was rejected (state {spy[0][2]}); {sc['fault'].get('cb') or sc['fault'].get('hook')} raised {sc['fault']['exc']}; it reported {spy[1:]}", common.payload(sc, e, rec.idx))
+                    continue
                 if not rec.fault_fired or not spy or spy[0][0] != "br.allow" or not spy[0][1]:
                     continue
                 n = len(spy) - 1
@@ -107,6 +121,7 @@ def conclude(ctx):
         "admitted_calls_with_retries": (ctx.cnt["admitted_calls_with_retries"], 500),
         "rejected_calls": (ctx.cnt["rejected_calls"], 200),
         "attempt_hook_fault_calls": (ctx.cnt["attempt_hook_fault_calls"], 200),
+        "rejected_calls_with_a_failing_hook": (ctx.cnt["rejected_calls_with_a_failing_hook"], 30),
     }
     floors.update(tconc.floors(ctx))
     return dict(
